@@ -1,6 +1,8 @@
 // Command wasmdriver is compiled twice – with and without -tags tinywasm – and runs gtree.Output
 // (the one entry point both build variants export) on cases read from stdin:
-//   <mode> <fmt: 4 hex strings, comma separated> <exts: hex list> <doc hex>
+//
+//	<mode> <fmt: 4 hex strings, comma separated> <exts: hex list> <doc hex>
+//
 // and prints   w=<hex of the bytes written> e=<error class>
 package main
 
